@@ -366,6 +366,7 @@ func checkProgram(ps emitbatch.ProgSpec, bt batch, ns *rig.NatsServer) *progResu
 			scaledOut(prog, svc, gs, methods, []string{"binary", "compact", "json"}[int(ps.Seed>>4&0xffff)%3], rng, ns, res, addV)
 			largeReplies(prog, svc, gs, methods, []string{"binary", "compact", "json"}[int(ps.Seed>>8&0xffff)%3], rng, ns, res, addV)
 			afterOversizeReply(prog, svc, gs, methods, []string{"binary", "compact", "json"}[int(ps.Seed&0xffff)%3], rng, ns, res, addV)
+			bigResponseHeaders(prog, svc, gs, methods, rand.New(rand.NewSource(bt.Seed^ps.Seed^0x62696768647273)), ns, res, addV)
 			if pf, parent := parentOf(prog, f, svc); parent != nil {
 				if pgs, pn := findEmitted(pkgs, pf, parent); pgs != nil && pn == 1 {
 					for _, lp := range bt.Legs {
@@ -1260,8 +1261,24 @@ func runCall(prog *idl.Program, svc *idl.Service, mi methodInfo, gm reflect.Valu
 	}
 	m := mi.m
 	mt := gm.Type()
+	bigHdr := 0
+	if forceRespHeader > 0 && !m.Oneway {
+		// the handler of this call also adds a response header of this size
+		// (bigheaders.go): every finding is reported under its own signature
+		bigHdr = forceRespHeader
+		inner := addV
+		addV = func(sig, what string, w interface{}) {
+			inner("C03:big-response-headers:"+strings.TrimPrefix(sig, "C03:"), fmt.Sprintf("%s [the handler had also added a response header of %d bytes: the server cannot send any reply that carries it]", what, bigHdr), w)
+		}
+		respHeaderFor.Store(token, bigHdr)
+		defer respHeaderFor.Delete(token)
+	}
 	wit := func(extra map[string]interface{}) map[string]interface{} {
 		w := map[string]interface{}{"service": svc.Name, "method": m.Name, "leg": legName, "idl": idl.RenderFile(mi.file, idl.DefaultStyle())}
+		if bigHdr > 0 {
+			w["response_header_bytes"] = bigHdr
+			w["token"] = token
+		}
 		for k, v := range extra {
 			w[k] = v
 		}
@@ -1307,6 +1324,9 @@ func runCall(prog *idl.Program, svc *idl.Service, mi methodInfo, gm reflect.Valu
 	}
 	outcome = make([]interface{}, nOut)
 	r := rng.Intn(10)
+	if forceOutcome != "" {
+		r = map[string]int{"declared-exception": 0, "undeclared-error": 2, "application-exception": 3, "value": 9}[forceOutcome]
+	}
 	switch {
 	case m.Oneway:
 		class = "oneway"
@@ -1456,6 +1476,11 @@ func runCall(prog *idl.Program, svc *idl.Service, mi methodInfo, gm reflect.Valu
 		}
 	}
 	// what the caller observed
+	if bigHdr > 0 && isResponseTooLarge(callErr) {
+		// the outcome could not be carried next to the handler's response
+		// headers and the caller was told so
+		return class + "->RESPONSE_TOO_LARGE"
+	}
 	switch class {
 	case "oneway":
 		if callErr != nil {
